@@ -207,6 +207,10 @@ Guard(s, e) ==
       \* l.GetWriterBy(e.a).Close(): closes every member of the destination list of severity e.a (modelled
       \* for lists of the user's own writers; the built-in stdout/stderr destinations are left out)
       [] e.op = "CloseW" -> e.l \in Live(s) /\ \A j \in DOMAIN Dest(s, e.l, e.a) : Dest(s, e.l, e.a)[j] > 0
+      \* re-entrancy: a record of logger e.l one of whose values, while being formatted, issues a record of
+      \* logger e.a (String() of an attribute value logs); creating a child of e.a from inside e.l.Each(...)
+      [] e.op = "LogNest" -> e.l \in Live(s) /\ e.a \in Live(s)
+      [] e.op = "EachNew" -> e.l \in Live(s) /\ e.a \in Live(s) /\ OptLists[1] = <<>>
       [] e.op = "VrbMode" -> TRUE                  \* the process-wide verbose switch set from outside the library (hedzr/is)
       \* slog.RegisterLevel(v, title, options): RegCalls[e.a]
       [] e.op = "Register" -> e.a \in DOMAIN RegCalls
@@ -273,6 +277,8 @@ Step(s, e) ==
                nf == IF o.nosource THEN s.flags \ {"caller"} ELSE s.flags \cup {"caller"}
            IN {[s EXCEPT !.cfg[e.l] = c3, !.flags = nf, !.dbg = s.dbg \/ o.level = Debug, !.hnd = Append(s.hnd, e.l)]}
       [] e.op = "HEmit" -> {s}
+      [] e.op = "LogNest" -> {s}
+      [] e.op = "EachNew" -> Step(s, [op |-> "New", l |-> e.a, k |-> "", a |-> 1, b |-> 0])
       [] e.op = "CloseW" -> {[s EXCEPT !.closed = @ \cup {w \in ToSet(Dest(s, e.l, e.a)) : w >= FileBase}]}
       \* a refused registration (value in use, or title in use) changes nothing at all; an accepted
       \* one changes the entries of its own value only
@@ -312,6 +318,7 @@ Ret(s, e, s2) ==
            IF e.k # "" /\ KidNamed(s, e.l, e.k) # {}
            THEN CHOOSE m \in KidNamed(s, e.l, e.k) : TRUE ELSE s2.n
       [] e.op = "NewDetached" -> s2.n
+      [] e.op = "EachNew" -> s2.n
       [] e.op = "PkgSkip" ->
            IF e.k = "SetSkip" THEN 0
            ELSE IF KidNamed(s, s.deflog, SkipName(e.a)) # {} THEN CHOOSE m \in KidNamed(s, s.deflog, SkipName(e.a)) : TRUE ELSE s2.n
@@ -481,6 +488,8 @@ SetAttrsR(b) == "SetAttrsR" \in Acts /\ b \in {0, 1} /\ Do("SetAttrsR", 0, "", b
 DbgMode(b) == "DbgMode" \in Acts /\ b \in {0, 1} /\ Do("DbgMode", 0, "", b, 0)
 MkHandler(l, a) == "MkHandler" \in Acts /\ Len(st.hnd) < MaxHandlers /\ Do("MkHandler", l, "", a, 0)
 HEmit(h, r) == "HEmit" \in Acts /\ r \in {Debug, Info, Warn, Error} /\ Do("HEmit", h, "", r, 0)
+LogNest(l, m) == "LogNest" \in Acts /\ Do("LogNest", l, "", m, 0)
+EachNew(l, m) == "EachNew" \in Acts /\ st.n < MaxLoggers /\ Do("EachNew", l, "", m, 0)
 CloseW(l, r) == "CloseW" \in Acts /\ Do("CloseW", l, "", r, 0)
 VrbMode(b) == "VrbMode" \in Acts /\ b \in {0, 1} /\ Do("VrbMode", 0, "", b, 0)
 Register(a) == "Register" \in Acts /\ a \in DOMAIN RegCalls /\ Do("Register", 0, "", a, 0)
@@ -522,6 +531,8 @@ Next ==
     \/ \E b \in {0, 1} : SetAttrsR(b)
     \/ \E b \in {0, 1} : DbgMode(b)
     \/ \E b \in {0, 1} : VrbMode(b)
+    \/ \E l \in 1..MaxLoggers, m \in 1..MaxLoggers : LogNest(l, m)
+    \/ \E l \in 1..MaxLoggers, m \in 1..MaxLoggers : EachNew(l, m)
     \/ \E l \in 1..MaxLoggers, r \in LogSevs : CloseW(l, r)
     \/ \E l \in 1..MaxLoggers, a \in DOMAIN HandlerOpts : MkHandler(l, a)
     \/ \E h \in 1..MaxHandlers, r \in {Debug, Info, Warn, Error} : HEmit(h, r)
